@@ -371,6 +371,13 @@ where
         match self.verify_group_with_chunk(current_group, max_cycles - cycles, &snap.state) {
             Ok(ChunkState::Completed(used_cycles, _consumed_cycles)) => {
                 cycles = wrapping_cycles_add(cycles, used_cycles, current_group)?;
+                // `used_cycles` includes what the group consumed before the snapshot was taken,
+                // which the chunk limit above did not account for
+                if cycles > max_cycles {
+                    return Err(ScriptError::ExceededMaximumCycles(max_cycles)
+                        .source(current_group)
+                        .into());
+                }
             }
             Ok(ChunkState::Suspended(_)) => {
                 return Err(ScriptError::ExceededMaximumCycles(max_cycles)
